@@ -4,6 +4,7 @@ import os
 from vlib import build, tlc, table
 from vlib.common import CheckBroken, run as sh
 from checks.c14 import mc as mc_lwe
+from vlib import life
 
 LEVEL = "model_checking"
 
@@ -59,5 +60,28 @@ def run(ctx):
         ev = (table.nth_line(tf, k) or "")[:400]
         ctx.violation("memory scenario on %s/%s is not a behaviour of Trace_Mem (leak / red-zone damage / double free / crash / result depends on heap contents): %s" % (be, kind, ev),
                       detail={"accepted_prefix": k - 1, "of": n, "event": ev}, files=[tf])
+    # 3. "forall API lifecycles (new/use/export/import/delete in every order the API allows)": the lifecycle machine Life is checked exhaustively for a small
+    #    budget, TLC then samples long behaviours of it, and h_life replays each on the library under the ledger; Trace_Life validates every step
+    for kind in ("custom", "default"):
+        r = tlc.run_tlc("MC_Life", constants={"Budget": 11 if thorough else 9, "ParamKind": '"%s"' % kind}, workdir=ctx.dir, timeout=3000)
+        if not tlc.expect_ok(ctx, r, "MC_Life " + kind):
+            raise CheckBroken("specification Life (%s) violates %s: %s" % (kind, r.violated, r.out[-1200:]))
+    rm = tlc.run_tlc("MC_Life", constants={"Budget": 6, "Relax": "TRUE"}, workdir=ctx.dir, workers=2)
+    if rm.violated != "NoDangling":
+        raise CheckBroken("design mutant 'parameters deleted under a live key set' not rejected: %r" % rm)
+    ctx.add("spec_mutants_rejected", 1)
+    ctx.sample({"model": "MC_Life", "distinct_states": r.distinct, "invariants": "TypeOK, NoDangling, DeadIsEmpty, NoStuck"})
+    plans = [("spqlios-fma", "optim", "custom", 14), ("spqlios-fma", "optim", "default", 2), ("fftw", "debug", "custom", 5)]
+    if thorough:
+        plans = [(be, "optim", "custom", 40) for be in ("spqlios-fma", "spqlios-avx", "nayuki-avx", "nayuki-portable", "fftw")] + \
+                [("spqlios-fma", "optim", "default", 8), ("fftw", "optim", "default", 3), ("spqlios-fma", "debug", "custom", 16), ("fftw", "debug", "custom", 16)]
+    for q, (be, kb, kind, num) in enumerate(plans):
+        bad = life.replay(ctx, be, kb, kind, num, ctx.seed * 17 + q)
+        if bad and bad.get("crash"):
+            ctx.violation("h_life died on %s/%s rc=%s %s" % (be, kb, bad["rc"], bad["err"]), key="h_life crash %s %s" % (be, kb), files=bad["files"])
+        elif bad:
+            ctx.violation("API lifecycle on %s/%s (%s parameters) is not a behaviour of Life (%s): accepted %d of %d events, rejected event %s" %
+                          (be, kb, kind, bad["violated"] or "no matching action: wrong plaintext / evaluation differs between key objects or runs / export bytes differ / leak / red-zone damage / crash",
+                           bad["accepted_prefix"], bad["of"], bad["event"][:300]), detail={k: bad[k] for k in ("accepted_prefix", "of", "event")}, files=bad["files"])
     ctx.assume("decided: heap out-of-bounds WRITES (red zones of 64 bytes around every block of the process), leaks, double frees, use of freed or uninitialised heap memory that changes a result or an export (two fill patterns, poison on free)")
     ctx.assume("NOT decided (stated in DESIGN.md section 7): out-of-bounds READS that do not change a result, accesses beyond 64 bytes past a block, stack accesses, and anything inside hand-written assembly that stays within mapped memory; the sanitizer/valgrind configurations the property text names are not part of this technique")
